@@ -45,6 +45,7 @@ type FuncSpec struct {
 	Modifies []string        // ghost names; nil = unknown (all)
 	ModSet   bool
 	Pure     bool
+	NoPanicOnly []string
 	Nullable []string // parameter field paths (param.Field) whose pointer may be nil
 	Inline   bool
 	Lets     []*Clause // let name := expr (evaluated in post-state)
@@ -255,6 +256,13 @@ func (db *SpecDB) loadFile(pkgPath, file string) error {
 			return fmt.Errorf("%s: clause outside of a func block: %s", where, body)
 		case strings.HasPrefix(body, "prop "):
 			cur.Props = append(cur.Props, strings.Fields(body[5:])...)
+		case strings.HasPrefix(body, "nopanic-only "):
+			// nopanic-only <Cxx> <kind-substring>...: only panic sites whose kind contains one of the substrings
+			fs := strings.Fields(body)[1:]
+			if len(fs) >= 2 {
+				cur.NoPanic[fs[0]] = true
+				cur.NoPanicOnly = append(cur.NoPanicOnly, fs[1:]...)
+			}
 		case strings.HasPrefix(body, "nopanic"):
 			ps := strings.Fields(body)[1:]
 			if len(ps) == 0 {
@@ -433,6 +441,13 @@ func lexExpr(s string) ([]tok, error) {
 			j := i
 			for j < len(s) && ((s[j] >= '0' && s[j] <= '9') || s[j] == '_') {
 				j++
+			}
+			// decimal fraction: a real literal
+			if j+1 < len(s) && s[j] == '.' && s[j+1] >= '0' && s[j+1] <= '9' {
+				j++
+				for j < len(s) && s[j] >= '0' && s[j] <= '9' {
+					j++
+				}
 			}
 			ts = append(ts, tok{"num", strings.ReplaceAll(s[i:j], "_", "")})
 			i = j
